@@ -212,15 +212,30 @@ type result struct {
 	Err        string `json:"err"`
 	AfterIDs   []int  `json:"after_ids"`
 	AfterCount int64  `json:"after_count"`
+	Ans        *answer `json:"answer,omitempty"`       // the multi-block stage (blocks.go)
+	AfterAns   *answer `json:"after_answer,omitempty"` // the same query once everything has finished
 }
 
 // runs one schedule: writer = one rotation (4 steps: up to the segmeta.json entry | add to the rotated
 // metadata | remove from the unrotated info (up to the suffix hook inside resetSegStore) | rest of the reset), reader = one query (3 steps: snapshot of the unrotated list |
 // snapshot of the rotated list | resolve + read)
 func runSchedule(index string, sched string, qtext string, nEvents int) result {
+	var res result
+	res = runScheduleGen(sched, qtext,
+		func() { ingest(index, 1, nEvents); flushLogs() },
+		func(r *result) { r.IDs, r.Count, r.Err = runQuery(index, qtext) },
+		func(r *result) {
+			r.AfterIDs, _, _ = runQuery(index, "*")
+			_, r.AfterCount, _ = runQuery(index, "* | stats count")
+		})
+	return res
+}
+
+// prep: what is stored before the two threads start; query: the reader thread (fills the answer); after: the quiescent
+// answers, once both threads have finished
+func runScheduleGen(sched string, qtext string, prep func(), query func(*result), after func(*result)) result {
 	res := result{Schedule: sched, Query: qtext, Feasible: true}
-	ingest(index, 1, nEvents)
-	flushLogs()
+	prep()
 	G.mu.Lock()
 	G.enabled = true
 	G.arrived = map[string]chan struct{}{"w": make(chan struct{}, 8), "r": make(chan struct{}, 8)}
@@ -240,7 +255,7 @@ func runSchedule(index string, sched string, qtext string, nEvents int) result {
 		} else {
 			go func() {
 				readerActive.Store(true)
-				res.IDs, res.Count, res.Err = runQuery(index, qtext)
+				query(&res)
 				readerActive.Store(false)
 				close(rdone)
 			}()
@@ -305,8 +320,7 @@ func runSchedule(index string, sched string, qtext string, nEvents int) result {
 	drain("w", wdone)
 	drain("r", rdone)
 	// quiescent answers
-	res.AfterIDs, _, _ = runQuery(index, "*")
-	_, res.AfterCount, _ = runQuery(index, "* | stats count")
+	after(&res)
 	return res
 }
 
@@ -329,12 +343,16 @@ func main() {
 		printLockPrograms()
 		return
 	}
+	if len(os.Args) > 1 && os.Args[1] == "probe" { // debugging aid: the multi-block stage alone, with timing
+		probeBlocks(os.Args[2:])
+		return
+	}
 	if len(os.Args) > 1 && os.Args[1] == "churnworker" {
 		churnWorker(os.Args[2:])
 		return
 	}
 	cfg := vhlib.ParseFlags()
-	sum := vhlib.NewSummary("one case = one forced interleaving of a segment rotation (4 steps) with a query (3 steps) on the real code, for a record query (`*`) and a statistics query (`* | stats count`); all 35 interleavings are enumerated (exhaustive at this granularity); an interleaving that blocks on a lock is recorded as infeasible; non-trivial = both threads take at least one step before the other finishes")
+	sum := vhlib.NewSummary("one case = one forced interleaving of a segment rotation (4 steps) with a query (3 steps) on the real code, for a record query (`*`) and a statistics query (`* | stats count`); all 35 interleavings are enumerated (exhaustive at this granularity); an interleaving that blocks on a lock is recorded as infeasible; non-trivial = both threads take at least one step before the other finishes. Second stream (blocks.go): the same 35 interleavings on segments of B blocks under GOMAXPROCS = P for query shapes of every searcher route — time-ordered records (`*`), segment statistics (`* | stats count`), any-order records in front of a later stats command (`* | eval/where/fields/rename .. | stats count [by id]`, P in 2..4 (thorough: also 6/8/16), B drawn from {1, P-1, P, P+1, 2P, 2P+1, 3P}), and, as a separate stream because two known defects live there, group-by statistics as first command (`* | stats count by id`); quick: every interleaving once per stream with shape/P/B drawn from the seed, thorough: every interleaving x every any-order shape x 4 values of P x 2 values of B; the free-running stress alternates `*` with an any-order by-id query")
 	if err := initSiglens(cfg.Out + "/data"); err != nil {
 		sum.HarnessError(err.Error())
 		sum.Write(cfg.Out)
@@ -386,18 +404,26 @@ func main() {
 			if n%7 == 1 {
 				sum.Sample(c)
 			}
-			// model case: schedule actually executed + observed multiset of (segment 0) blocks: 1 block
-			obs := len(r.IDs) / nEv
-			if q != "*" {
-				obs = int(r.Count) / nEv
-			}
+			// model case: schedule actually executed + what was observed of the segment's one block
 			if r.Feasible {
-				cases = append(cases, fmt.Sprintf("(%s, %d)", schedCoq(sched), obs))
+				cases = append(cases, coqBlocksCase(blocksCase{sched, qshape{q, map[bool]int{true: 0, false: 1}[q == "*"], false}, runtime.GOMAXPROCS(0), 1, nEv},
+					answer{IDs: r.IDs, Count: r.Count, Distinct: -1}))
 			}
 		}
 	}
-	defs := "Open Scope nat_scope.\nDefinition cases : list (list tid * nat) := " + vhlib.CoqListNL(cases) + ".\n"
-	sum.WriteCaseFile(cfg.Out, "cases_sched", "From SigM Require Import Base Handover HandoverCheck.\n", defs, "check_sched_cases cases", len(cases))
+	if os.Getenv("VERIF_RACE_CHILD") == "" {
+		// segments with several blocks, query shapes of all three searcher routes, GOMAXPROCS varied (blocks.go)
+		cases = append(cases, blocksStage(cfg, sum)...)
+	}
+	for sh := 0; sh*400 < len(cases) || sh == 0; sh++ {
+		part := cases[min(sh*400, len(cases)):min(sh*400+400, len(cases))]
+		name := "cases_sched"
+		if sh > 0 {
+			name = fmt.Sprintf("cases_sched%d", sh)
+		}
+		defs := "Open Scope nat_scope.\nDefinition cases : list sched_case := " + vhlib.CoqListNL(part) + ".\n"
+		sum.WriteCaseFile(cfg.Out, name, "From SigM Require Import Base Handover HandoverCheck.\n", defs, "check_sched_cases cases", len(part))
+	}
 	// the hooks stay installed (siglens background goroutines read them); without a marked writer / reader they do nothing
 	if os.Getenv("VERIF_RACE_CHILD") == "" {
 		lockProgramStage(cfg, sum)
@@ -713,13 +739,32 @@ func stress(cfg vhlib.Config, sum *vhlib.Summary) {
 				mu.Lock()
 				lo := flushed[w]
 				mu.Unlock()
-				ids, _, errs := runQuery(index, "*")
+				// every second search takes the route of a pipeline split into parallel chains (any-order searcher); its
+				// answer (one row per id with its count) is read as a list of ids
+				qtext := "*"
+				var ids []int
+				var errs string
+				if k%2 == 0 {
+					sh := qshape{"* | eval one=1 | stats count AS c by id", 2, true}
+					qtext = sh.Text
+					a := runQueryAns(index, sh)
+					errs = a.Err
+					for id, n := range a.Rows {
+						for i := int64(0); i < n && i < 4; i++ {
+							ids = append(ids, id)
+						}
+					}
+					sort.Ints(ids)
+				} else {
+					ids, _, errs = runQuery(index, "*")
+				}
 				mu.Lock()
 				hi := ingested[w]
 				mu.Unlock()
 				sum.Eval(fmt.Sprintf("stress/%d/%d", r, k), true)
 				sum.Count("stress/queries")
-				c := map[string]interface{}{"index": index, "flushed_before_query": lo, "ingested_after_query": hi, "ids": ids}
+				sum.Count("stress/query/" + qtext)
+				c := map[string]interface{}{"index": index, "query": qtext, "flushed_before_query": lo, "ingested_after_query": hi, "ids": ids}
 				if errs != "" {
 					sum.Fail("query_error_during_concurrent_ingest", errs, c)
 				}
